@@ -56,10 +56,23 @@ def timeline_record(cfg):
     rec = {}
     for k, v in d.items():
         if isinstance(v, tuple) and v and (v[0] == "after" or (v[0] == "call" and "Vec" in v[1])):
-            rec[k] = ("keyframes", tuple(sorted((keyframe_record(x) for x in keyframes_of(v)), key=repr)))
+            # the builder sorts the keyframes by position (stably): records are compared in position order, and keyframes
+            # that share a position keep the order in which they were added (that order is observable: a step)
+            rec[k] = ("keyframes", tuple(sorted((keyframe_record(x) for x in keyframes_of(v)), key=_position_key)))
         else:
             rec[k] = v
     return rec
+
+
+def _position_key(rec):
+    """the keyframe's position when it is a constant f32 (the only f32 constant among its own fields), else a key that
+    keeps the record where it is"""
+    if isinstance(rec, tuple):
+        fs = [v[2][2] for (name, v) in rec if isinstance(name, str) and isinstance(v, tuple) and len(v) == 3 and v[0] == "const"
+              and v[1] == "f32" and isinstance(v[2], tuple) and v[2][0] == "f"]
+        if len(fs) == 1:
+            return fs[0]
+    return float("inf")
 
 
 def keyframe_record(k):
